@@ -88,17 +88,23 @@ def export(ck):
   return exp
 
 
+def same_col(c, N, **kw):
+  m = c["m"]
+  v = np.arange(-m, m + 1, dtype=np.int64)
+  lo, amb = allowed_np(v, m, N, **kw)
+  return lo.tolist() == c["lo"] and sorted(v[amb > 0].tolist()) == sorted(c["amb"]), v.size
+
+
 def check_transcription(ck, exp):
   """allowed_np (used for full 24-bit mantissas) == Quant!Allowed on every exported entry."""
   n = 0
   for dt in DTS:
     N = NB[dt]
     for m, c in exp[dt]["col"].items():
-      v = np.arange(-m, m + 1, dtype=np.int64)
-      lo, amb = allowed_np(v, m, N)
-      if lo.tolist() != c["lo"] or sorted(v[amb > 0].tolist()) != sorted(c["amb"]):
+      same, k = same_col(c, N)
+      if not same:
         raise core.MachineryError(f"allowed_np differs from Quant!Allowed for N={N} m={m}")
-      n += v.size
+      n += k
     for it in exp[dt]["mat"] + exp[dt]["smp"]:
       off = np.asarray(it["off"], np.int64)
       lo, amb = allowed_np(off, np.asarray(it["mx"], np.int64)[None, :], N)
@@ -106,12 +112,12 @@ def check_transcription(ck, exp):
         raise core.MachineryError(f"allowed_np differs from Quant!Allowed on matrix {it['x']} N={N}")
       n += off.size
   ck.cov["transcription_entries_compared_with_tlc"] = n
-  # binding: a transcription that lacks the near-tie rule (amb == 0 everywhere) is noticed
-  c = exp["int8"]["col"][254]
-  v = np.arange(-254, 255, dtype=np.int64)
-  lo, amb = allowed_np(v, 254, 127)
-  ck.selftest("R: a numpy transcription without the near-tie window would differ from TLC's export",
-              sorted(v[(0 * amb) > 0].tolist()) != sorted(c["amb"]) and len(c["amb"]) > 0)
+  # binding: a transcription that lacks the near-tie window, or the exact-bucket rule, is noticed
+  cols = exp["int8"]["col"]
+  ck.selftest("R: a numpy transcription without the near-tie window differs from TLC's export",
+              not all(same_col(c, 127, window=False)[0] for c in cols.values()))
+  ck.selftest("R: a numpy transcription without the exact-bucket rule differs from TLC's export",
+              not same_col(cols[254], 127, exact=False)[0])
 
 
 def build_jobs(ck, exp):
